@@ -23,6 +23,8 @@ D = {
  "C06-B": ("C06", "struct jwt error_msg doubled to 512 bytes while checker/builder keep 256; jwt_copy_error is a plain strcpy", "a header alg string of 241 characters or more ('Invalid ALG: [...]' overflows the checker's message buffer)"),
  "C07-A": ("C07", "same change as C06-A", "a JWK member containing a byte outside the table range"),
  "C07-B": ("C07", "jwk_process_one returns NULL for a keys entry that is not a JSON object", "a keys array containing a number/string/null/array entry"),
+ "C07-C": ("C07", "pctx_to_pem runs EVP_PKEY_pairwise_check on private keys and frees the key on mismatch -- after item->provider_data was set", "a private JWK whose private half belongs to another key, then freeing the set: EVP_PKEY_free twice"),
+ "C07-D": ("C07", "jwks_process passes jansson's error text to jwt_write_error as the FORMAT string when the source is '<buffer>'", "non-JSON input whose failing token holds a % conversion"),
  "C08-A": ("C08", "set_ec_pub_key rejects coordinates longer than degree/8 octets (rounds down for P-521)", "every P-521 key (66-octet coordinates)"),
  "C08-B": ("C08", "crv is copied to item->curve in jwk_process_values for every kty (de-duplication of the EC / OKP importers)", "an RSA or oct JWK that carries a stray crv member"),
  "C08-C": ("C08", "set_ec_pub_key refuses x and y of different octet length", "an EC JWK written with minimal-length integers where exactly one coordinate has a leading zero octet"),
